@@ -595,6 +595,36 @@ static int str_sink(REPROC_STREAM stream, const uint8_t *buffer, size_t size, vo
   return r;
 }
 
+/* a sink that re-enters the library: on its first data it drains handle g (whose child has ended and left nothing open,
+ * so that this cannot block) with recording sinks of its own, and only then looks at the buffer it was given */
+struct nestsink { struct recsink rec; int g; int done; long res[3]; };
+static struct nestsink nestsinks[3];
+static int can_drain_now(int g)
+{
+  if (g <= 0 || g >= MAXH || !H[g]) return 0;
+  int p = child_of(g);
+  if (p < 0 || K->proc[p].state == PS_RUNNING || K->proc[p].state == PS_FORKING) return 0;
+  for (int i = 0; i < SK_MAXFD; i++) if (K->proc[p].fd[i].ofd >= 0) return 0;
+  return 1;
+}
+static int nest_sink(REPROC_STREAM stream, const uint8_t *buffer, size_t size, void *ctx)
+{
+  struct nestsink *s = ctx;
+  if (size > 0 && !s->done && can_drain_now(s->g)) {
+    s->done = 1;
+    struct recsink r1 = { 1, 0, 0, 0 }, r2 = { 2, 0, 0, 0 };
+    jv *outer = sinklog; int outer_h = sink_h, outer_handle = K->cur_handle;
+    sinklog = j_mkarr(); sink_h = s->g; K->cur_handle = s->g;
+    long r = reproc_drain(H[s->g], (reproc_sink){ rec_sink, &r1 }, (reproc_sink){ rec_sink, &r2 });
+    long b[3] = { 0, 0, 0 };
+    for (int i = 0; i < sinklog->n; i++) b[sinklog->a[i]->a[0]->i] += sinklog->a[i]->a[2]->i;
+    s->res[0] = r; s->res[1] = b[1]; s->res[2] = b[2];
+    sinklog = outer; sink_h = outer_h; K->cur_handle = outer_handle;
+    K->in_api = 1;
+  }
+  return rec_sink(stream, buffer, size, &s->rec);
+}
+
 static reproc_sink mk_sink(jv *spec, struct recsink *rs, int id, char **strp)
 {
   /* spec: ["rec", fail_at, fail_val] | ["str", initial_len] | ["discard"] | ["null"] | ["nofn"] */
@@ -613,6 +643,12 @@ static reproc_sink mk_sink(jv *spec, struct recsink *rs, int id, char **strp)
     s->fail_at = spec->n > 2 ? (int) spec->a[2]->i : 0;
     rs->fail_at = s->fail_at; rs->calls = 0;   /* so that the summary knows which sink failed */
     return (reproc_sink){ str_sink, s };
+  }
+  if (!strcmp(k, "nest")) {
+    struct nestsink *s = &nestsinks[id];
+    memset(s, 0, sizeof *s);
+    s->rec.id = id; s->g = spec->n > 1 ? (int) spec->a[1]->i : 0;
+    return (reproc_sink){ nest_sink, s };
   }
   if (!strcmp(k, "discard")) return reproc_sink_discard();
   if (!strcmp(k, "null")) return REPROC_SINK_NULL;
@@ -678,7 +714,7 @@ static long do_call(jv *c, jv **extra)
     jv *sk_ = j_get(c, "sinks");
     if (sk_) for (int i = 0; i < sk_->n; i++) {
       const char *kk = sk_->a[i]->a[0]->s;
-      if (!strcmp(kk, "nofn") || !strcmp(kk, "str")) skip_script("sink form without a C++ counterpart");
+      if (!strcmp(kk, "nofn") || !strcmp(kk, "str") || !strcmp(kk, "nest")) skip_script("sink form without a C++ counterpart");
       if (sk_->a[i]->n > 2 && sk_->a[i]->a[2]->i > 0) skip_script("positive sink results are not error codes");
     }
   }
@@ -866,6 +902,11 @@ static long do_call(jv *c, jv **extra)
     j_put(x, "bad", j_mkint(rbad));
     const char *k1 = sp && sp->n > 0 ? sp->a[0]->a[0]->s : "rec";
     const char *k2 = sp && sp->n > 1 ? sp->a[1]->a[0]->s : "rec";
+    for (int id = 1; id <= 2; id++)
+      if (!strcmp(id == 1 ? k1 : k2, "nest") && nestsinks[id].done) {
+        jv *nr = j_mkarr(); for (int q = 0; q < 3; q++) j_push(nr, j_mkint(nestsinks[id].res[q]));
+        j_put(x, "nest", nr);
+      }
     if (!strcmp(k1, "str")) j_put(x, "str1", str_obs(s1, h));
     if (!strcmp(k2, "str") && !same) j_put(x, "str2", str_obs(s2, h));
     int was = K->in_api; K->in_api = 1; /* release through the library's own function */
